@@ -1,6 +1,8 @@
 package opset13
 
 import (
+	"reflect"
+
 	"github.com/advancedclimatesystems/gonnx/onnx"
 	"github.com/advancedclimatesystems/gonnx/ops"
 	"gorgonia.org/tensor"
@@ -39,7 +41,15 @@ func (c *ConstantOfShape) Init(n *onnx.NodeProto) error {
 				return err
 			}
 
-			c.value = tensor.New(tensor.WithBacking(t.Data()))
+			// A rank 0 tensor has a scalar instead of a slice as backing.
+			data := reflect.ValueOf(t.Data())
+			if data.Kind() != reflect.Slice {
+				slice := reflect.MakeSlice(reflect.SliceOf(data.Type()), 1, 1)
+				slice.Index(0).Set(data)
+				data = slice
+			}
+
+			c.value = tensor.New(tensor.WithBacking(data.Interface()))
 			if c.value.Len() != 1 {
 				return ops.ErrInvalidTensor("expected tensor to have one element", c)
 			}
